@@ -1,5 +1,119 @@
 import Sentinel.Drv.Common
-/-! Driver for C03 (stub: replaced by the property's real driver) -/
+import Sentinel.Model.Breaker
+/-! Driver for C03: `model` = the breaker machine over the code-shaped leap array (`laOps`),
+    `spec` = the same machine over the bare history of completions (`histOps`).
+
+Ops: `clock <ms>`, `load <rule>…` (rule = `res,kind,retry,minReq,statI,buckets,maxRt,f:<thr bits>,probeNum`,
+`kind` 0 slow-ratio / 1 error-ratio / 2 error-count) `=> <number of valid rules>`, `entry <id> <res>`
+`=> pass | block <rule index>`, `exit <id> [err]`, `state <res>` `=> [C,O,H…]`, `log` `=> [events since the last log]`. -/
 namespace Sentinel.Drv.C03
-def run (_mode : String) : IO Unit := IO.eprintln "C03: driver not implemented"
+open Sentinel.LA Sentinel.CB Sentinel.Drv
+
+/-- `util.precision = 0.00000001` as a float64 -/
+def eps : Float := Float.ofBits 0x3E45798EE2308C3A
+
+/-- the trip predicate exactly as the code evaluates it (binary64):
+    `ratio > T || math.Abs(ratio-T) < 1e-8`, resp. `errorCount >= uint64(T)` -/
+def reachedF (kind : Kind) (thr : Float) (bad total : Nat) : Bool :=
+  match kind with
+  | .count => decide (thr.toUInt64.toNat ≤ bad)
+  | _ =>
+    let ratio := bad.toFloat / total.toFloat
+    ratio > thr || Float.abs (ratio - thr) < eps
+
+/-- `IsValidRule` (resource name non-empty is guaranteed by the tokeniser) -/
+def validRule (kind : Kind) (retry statI : Nat) (thr : Float) : Bool :=
+  decide (0 < statI) && decide (0 < retry) && !(thr < 0.0) && (kind == .count || !(thr > 1.0))
+
+structure PRule where
+  rule : Rule
+  thr : Float
+  valid : Bool
+
+def parseRule? (s : String) : Option PRule :=
+  match s.splitOn "," with
+  | [res, k, retry, minReq, statI, buckets, maxRt, thr, probe] =>
+    match k.toNat?, retry.toNat?, minReq.toNat?, statI.toNat?, buckets.toNat?, maxRt.toNat?, parseFbits? thr, probe.toNat? with
+    | some k, some retry, some minReq, some statI, some buckets, some maxRt, some thr, some probe =>
+      let kind? : Option Kind := match k with | 0 => some .slow | 1 => some .ratio | 2 => some .count | _ => none
+      if res.isEmpty then none else
+      kind?.map fun kind =>
+        { rule := { res := res, kind := kind, retryMs := retry, minReq := minReq, statI := statI, buckets := buckets,
+                    maxRt := maxRt, probeNum := probe, reached := reachedF kind thr },
+          thr := thr, valid := validRule kind retry statI thr }
+    | _, _, _, _, _, _, _, _ => none
+  | _ => none
+
+def parseRules? : List String → Option (List PRule)
+  | [] => some []
+  | s :: r => match parseRule? s, parseRules? r with
+    | some a, some b => some (a :: b)
+    | _, _ => none
+
+def stCh : St → String | .closed => "C" | .halfOpen => "H" | .opened => "O"
+
+def one : String := "f:3ff0000000000000"
+
+def showEv (kinds : List (Nat × Kind)) (e : Ev) : String :=
+  let kind := (kinds.find? (·.1 = e.id)).map (·.2) |>.getD .slow
+  match e.tr with
+  | .toHalfOpen => s!"{e.id}:OH"
+  | .toClosed => s!"{e.id}:HC"
+  | .toOpen prev snap =>
+    let sn := match snap, kind with
+      | .stat bad _, .count => s!"u{bad}"
+      | .stat bad total, _ => fbits (bad.toFloat / total.toFloat)
+      | .probe, .count => "i1"
+      | .probe, _ => one
+      | .rollback, _ => one
+    s!"{e.id}:{stCh prev}O:{sn}"
+
+structure DSt (W : Type) where
+  s : Sys W := {}
+  loaded : Bool := false
+  pending : List Ev := []         -- listener callbacks not yet shown by `log`
+
+def kindsOf {W} (s : Sys W) : List (Nat × Kind) := s.brs.map fun b => (b.id, b.rule.kind)
+
+/-- number the rules by their position in the load list, keep the valid ones -/
+def numbered (rs : List PRule) : List (Nat × PRule) := (List.range rs.length).zip rs |>.filter (·.2.valid)
+
+def stepD {W} (ops : Rule → WinOps W) (mkB : Nat → Rule → Nat → Brk W) (d : DSt W) (ts : List String) (_ : String) :
+    DSt W × Option String :=
+  match ts with
+  | ["clock", t] => match t.toNat? with
+      | some t => if t < d.s.now ∨ t = 0 then (d, some "bad-op") else ({ d with s := (step ops d.s (.clock t)).1 }, none)
+      | none => (d, some "bad-op")
+  | "load" :: rs =>
+      if d.loaded ∨ d.s.now = 0 then (d, some "bad-op") else
+      match parseRules? rs with
+      | none => (d, some "bad-op")
+      | some prs =>
+        let brs := (numbered prs).map fun p => mkB p.1 p.2.rule d.s.now
+        ({ d with s := { d.s with brs := brs }, loaded := true }, some (toString brs.length))
+  | ["entry", id, res] => match id.toNat? with
+      | some id =>
+        let r := step ops d.s (.entry id res)
+        let txt := match r.2.dec with
+          | some (some k) => s!"block {k}"
+          | _ => "pass"
+        ({ d with s := r.1, pending := d.pending ++ r.2.evs }, some txt)
+      | none => (d, some "bad-op")
+  | "exit" :: id :: rest => match id.toNat? with
+      | some id =>
+        if rest ≠ [] ∧ rest ≠ ["err"] then (d, some "bad-op") else
+        let r := step ops d.s (.exit id (rest == ["err"]))
+        ({ d with s := r.1, pending := d.pending ++ r.2.evs }, none)
+      | none => (d, some "bad-op")
+  | ["state", res] =>
+      (d, some (showList ((d.s.brs.filter (·.rule.res = res)).map fun b => stCh b.st)))
+  | ["log"] => ({ d with pending := [] }, some (showList (d.pending.map (showEv (kindsOf d.s)))))
+  | _ => (d, some "bad-op")
+
+def run (mode : String) : IO Unit :=
+  if mode == "spec" then
+    loop ({} : DSt (List (Nat × Cnt))) (stepD histOps fun id r _ => Brk.newAbs id r)
+  else
+    loop ({} : DSt (Arr Cnt)) (stepD laOps Brk.new)
+
 end Sentinel.Drv.C03
